@@ -40,6 +40,10 @@ class Vec1(list):
     """a 1-D tensor of known length (entries: RF / int / Term)"""
 
 
+class Mat2(list):
+    """a 2-D tensor of known shape: a list of equally long Vec1 rows"""
+
+
 class Term:
     """opaque canonical scalar: kind{sorted args}"""
 
@@ -561,6 +565,18 @@ class Evaluator:
                         recv.insert(a[0], a[1])
                         return None
                 raise NotEval("list method on a non-list")
+            if m in ("flatten", "ravel") or (m in ("reshape", "view") and len(e.args) == 1 and isinstance(e.args[0], ast.UnaryOp)):
+                v = self.ev(fn.value, f)
+                if isinstance(v, Mat2) and (m in ("flatten", "ravel") and not e.args or m in ("reshape", "view") and ast.unparse(e.args[0]) == "-1"):
+                    return Vec1(x for row in v for x in row)
+                if isinstance(v, Vec1) and not e.args:
+                    return v
+                raise NotEval("flatten of a non-matrix")
+            if m in ("t",) and not e.args or (m == "transpose" and [ast.unparse(a) for a in e.args] in (["0", "1"], ["1", "0"], ["-1", "-2"], ["-2", "-1"])):
+                v = self.ev(fn.value, f)
+                if isinstance(v, Mat2):
+                    return Mat2([Vec1(col) for col in zip(*v)])
+                raise NotEval("transpose of a non-matrix")
             if m in ("tolist",) and not e.args:
                 v = self.ev(fn.value, f)
                 if isinstance(v, list):
@@ -647,6 +663,26 @@ class Evaluator:
             if isinstance(a[0], (list, tuple, range)):
                 return [(i + (a[1] if len(a) > 1 else 0), x) for i, x in enumerate(a[0])]
             raise NotEval("enumerate")
+        if name in ("torch.minimum", "torch.maximum", "torch.min", "torch.max") and len(e.args) == 2:
+            a = A()
+            if isinstance(a[0], Vec1) and isinstance(a[1], Vec1) and len(a[0]) == len(a[1]):
+                kind = "min" if "min" in name else "max"
+                out = Vec1()
+                for x, y in zip(a[0], a[1]):
+                    t = Term(kind, [])
+                    t.args = frozenset({repr(_rf(x)) if not isinstance(x, Term) else repr(x), repr(_rf(y)) if not isinstance(y, Term) else repr(y)})
+                    out.append(t if len(t.args) > 1 else x)
+                return out
+        if name in ("torch.stack", "torch.vstack") and e.args:
+            a = A()
+            if isinstance(a[0], (list, tuple)) and a[0] and all(isinstance(r, Vec1) for r in a[0]) and len({len(r) for r in a[0]}) == 1:
+                d = kw("dim", a[1] if len(a) > 1 else 0)
+                rows = [Vec1(r) for r in a[0]]
+                if d in (0, -2):
+                    return Mat2(rows)
+                if d in (1, -1) and name == "torch.stack":
+                    return Mat2([Vec1(col) for col in zip(*rows)])
+                raise NotEval("stack axis")
         if name in ("min", "max", "torch.min", "torch.max", "torch.minimum", "torch.maximum", "np.min", "np.max"):
             a = A()
             items = list(a[0]) if len(a) == 1 and isinstance(a[0], (list, tuple)) else a
